@@ -1265,6 +1265,9 @@ func genWideStmt(r *Rng, s QSchema, idx int) (QStmt, string) {
 	case 16:
 		tag = "order-group-having"
 		q.SQL = fmt.Sprintf("SELECT %s, count(*) AS n FROM %s WHERE %s = %s GROUP BY %s HAVING count(*) > %s ORDER BY %s", c1.Name, t.Name, c2.Name, w.ph(), c1.Name, w.ph(), c1.Name)
+		if !pg {
+			known = append(known, "mysqlClauseDropped")
+		}
 	case 17:
 		tag = "join-expr-targets"
 		q.SQL = fmt.Sprintf("SELECT %s, b.%s FROM %s a JOIN %s b ON b.id = a.id WHERE a.%s = %s", w.targets("a", t), d1.Name, t.Name, u.Name, c1.Name, w.ph())
